@@ -519,26 +519,25 @@ class LRTable:
 
             """
             symbol, act = act_item
-            cmp_str = "{:010d}{:500s}".format(
-                symbol.prior * 1000
-                + (
-                    500
-                    + (
-                        len(symbol.recognizer.value)
-                        if type(symbol.recognizer) is StringRecognizer
-                        else 0
-                    )
-                    +
-                    # Account for `\b` at the beginning and end of keyword regex
-                    (
-                        (len(symbol.recognizer._regex) - 4)
-                        if type(symbol.recognizer) is RegExRecognizer and symbol.keyword
-                        else 0
-                    )
+            # Compared as a tuple. A formatted string would mix the fields
+            # for priorities of more than 7 digits and for strings of 500 or
+            # more characters.
+            return (
+                symbol.prior,
+                (
+                    len(symbol.recognizer.value)
+                    if type(symbol.recognizer) is StringRecognizer
+                    else 0
+                )
+                +
+                # Account for `\b` at the beginning and end of keyword regex
+                (
+                    (len(symbol.recognizer._regex) - 4)
+                    if type(symbol.recognizer) is RegExRecognizer and symbol.keyword
+                    else 0
                 ),
                 symbol.fqn,
             )
-            return cmp_str
 
         for state in self.states:
             state.actions = OrderedDict(
